@@ -1,5 +1,5 @@
 """Fact loading, CFG / dominance utilities over the exported MIR."""
-import json, re, sys, functools
+import json, os, re, sys, functools
 
 sys.setrecursionlimit(20000)
 
@@ -244,12 +244,180 @@ def canonical_closure_numbers(text):
     return text
 
 
+def _reference_functions():
+    try:
+        with open(os.path.join(os.path.dirname(os.path.abspath(__file__)), "names.json")) as fh:
+            return set(json.load(fh)["params"].keys())
+    except Exception:
+        return None
+
+
+def _renumber(x, L, B, in_place=False):
+    """shift every local index by L in a (deep-copied) MIR fragment"""
+    if isinstance(x, dict):
+        if "l" in x and "proj" in x:
+            x["l"] += L
+            for pr in x["proj"]:
+                if isinstance(pr, dict) and "idx" in pr:
+                    pr["idx"] += L
+            return
+        for v in x.values():
+            _renumber(v, L, B)
+    elif isinstance(x, list):
+        for v in x:
+            _renumber(v, L, B)
+
+
+def _realias(x, frm, to):
+    if isinstance(x, dict):
+        if "l" in x and "proj" in x:
+            if x["l"] == frm:
+                x["l"] = to
+            for pr in x["proj"]:
+                if isinstance(pr, dict) and pr.get("idx") == frm:
+                    pr["idx"] = to
+            return
+        for v in x.values():
+            _realias(v, frm, to)
+    elif isinstance(x, list):
+        for v in x:
+            _realias(v, frm, to)
+
+
+def _inline_call(c, bi, h, arg_ops):
+    """replace the call terminator of block `bi` of raw body `c` by the blocks of raw body `h` (MIR inlining on the fact representation)"""
+    import copy
+    t = c["blocks"][bi]["term"]
+    L, B = len(c["locals"]), len(c["blocks"])
+    c["locals"].extend(copy.deepcopy(h["locals"]))
+    blk = c["blocks"][bi]
+    for k_, a in enumerate(arg_ops):
+        blk["stmts"].append({"place": {"l": L + 1 + k_, "proj": []}, "rv": {"k": "use", "a": a}, "line": t.get("line"), "mac": False})
+    cont, dest, line = t.get("ret"), t["dest"], t.get("line")
+    blk["term"] = {"k": "goto", "t": B}
+    alias = dest["l"] if not dest["proj"] else None     # the callee's return place is the call's destination itself
+    for hb in copy.deepcopy(h["blocks"]):
+        _renumber(hb, L, B)
+        if alias is not None:
+            _realias(hb, L, alias)
+        tt = hb["term"]
+        k = tt["k"]
+        if k == "goto":
+            tt["t"] += B
+        elif k == "switch":
+            tt["arms"] = [[v, x + B] for v, x in tt["arms"]]
+            tt["otherwise"] += B
+        elif k == "call":
+            if tt.get("ret") is not None:
+                tt["ret"] += B
+        elif k == "drop":
+            tt["t"] += B
+        elif k == "assert":
+            tt["ok"] += B
+        elif k == "ret":
+            if alias is None:
+                hb["stmts"].append({"place": dest, "rv": {"k": "use", "a": {"move": {"l": L, "proj": []}}}, "line": tt.get("line") or line, "mac": False})
+            hb["term"] = {"k": "goto", "t": cont} if cont is not None else {"k": "unreachable"}
+        c["blocks"].append(hb)
+
+
+def _closure_behind(c, op, depth=0):
+    """the closure aggregate a call operand holds, when that is decided by single assignments inside raw body `c` (moves, copies and shared borrows of
+    locals are followed); returns the closure's path or None"""
+    if depth > 6 or not isinstance(op, dict):
+        return None
+    pl = op.get("move") or op.get("copy")
+    if pl is None or pl["proj"]:
+        return None
+    defs = [st for blk in c["blocks"] for st in blk["stmts"] if st["place"]["l"] == pl["l"] and not st["place"]["proj"]]
+    if len(defs) != 1:
+        return None
+    rv = defs[0]["rv"]
+    if rv["k"] == "use":
+        return _closure_behind(c, rv["a"], depth + 1)
+    if rv["k"] == "ref" and not rv["p"]["proj"]:
+        return _closure_behind(c, {"copy": rv["p"]}, depth + 1)
+    if rv["k"] == "agg" and isinstance(rv["kind"], dict) and "closure" in rv["kind"]:
+        return rv["kind"]["closure"]
+    return None
+
+
+def _inline_closure_calls(c, bodies, from_block):
+    """after a helper was inlined, a closure handed to it as `impl Fn..` is called where the helper called its parameter: inline that closure's body too"""
+    n = 0
+    for bi in range(from_block, len(c["blocks"])):
+        t = c["blocks"][bi]["term"]
+        if t["k"] != "call" or not re.search(r"ops::(function::)?(FnOnce::call_once|FnMut::call_mut|Fn::call)$", t["callee"]) or len(t["args"]) != 2:
+            continue
+        cp = _closure_behind(c, t["args"][0])
+        cb = bodies.get(cp) if cp else None
+        tup = t["args"][1].get("move") or t["args"][1].get("copy")
+        if cb is None or tup is None or tup["proj"] or len(cb["blocks"]) > 200:
+            continue
+        ops = [t["args"][0]] + [{"copy": {"l": tup["l"], "proj": [{"f": str(j), "i": j, "adt": ""}]}} for j in range(cb["nargs"] - 1)]
+        _inline_call(c, bi, cb, ops)
+        n += 1
+    return n
+
+
+def splice_new_helpers(d, reference):
+    """A private function that the reference tree (names.json: the functions of the tree the rules were written against) does not have is a helper somebody
+    extracted: it is inlined into its callers at the MIR level (locals and blocks renumbered, parameters assigned from the call's operands, every `return`
+    replaced by an assignment of the call's destination and a jump to its continuation), so that the rules - which are anchored at the protocol functions
+    they know - keep reading the whole operation with its own control-flow graph.  The helper's body stays in the fact file (closures, recursion) but is
+    marked `spliced` and left out of `Facts.own` once every call of it has been inlined."""
+    import copy
+    if reference is None:
+        return []
+    bodies = {b["path"]: b for b in d["bodies"]}
+    def is_helper(b):
+        return (b["kind"] in ("Fn", "AssocFn") and b["path"] not in reference and b["vis"] != "pub" and not b["file"].startswith("/")
+                and b.get("in_trait") is None and b.get("impl_trait") is None and len(b["blocks"]) <= 400)
+    helpers = {p for p, b in bodies.items() if is_helper(b)}
+    if not helpers:
+        return []
+    def calls_of(b):
+        return [(i, blk["term"]) for i, blk in enumerate(b["blocks"]) if blk["term"]["k"] == "call" and (blk["term"].get("resolved") or blk["term"].get("callee")) in helpers]
+    done = []
+    for _round in range(4):
+        changed = False
+        for c in d["bodies"]:
+            if len(c["blocks"]) > 3000:
+                continue
+            for bi, t in calls_of(c):
+                hp = t.get("resolved") or t.get("callee")
+                h = bodies[hp]
+                if h is c or calls_of(h) and _round < 3:
+                    continue            # inner helpers first; never a function into itself
+                if len(t["args"]) != h["nargs"]:
+                    continue
+                nb = len(c["blocks"])
+                _inline_call(c, bi, h, list(t["args"]))
+                for _ in range(3):
+                    if not _inline_closure_calls(c, bodies, nb):
+                        break
+                done.append((c["path"], hp))
+                changed = True
+        if not changed:
+            break
+    # a helper every call of which was inlined is analysed inside its callers
+    still = set()
+    for c in d["bodies"]:
+        for _, t in calls_of(c):
+            still.add(t.get("resolved") or t.get("callee"))
+    for hp in helpers:
+        if hp not in still and any(h_ == hp for _, h_ in done):
+            bodies[hp]["spliced"] = True
+    return done
+
+
 class Facts:
     def __init__(self, path, config=None):
         self.path = path
         self.config = config
         with open(path) as fh:
             d = json.loads(canonical_closure_numbers(fh.read()))
+        self.spliced = splice_new_helpers(d, _reference_functions())
         self.raw = d
         self.crate = d["crate"]
         self.rustc = d["rustc"]
@@ -261,7 +429,7 @@ class Facts:
         self.impls = d["impls"]
         self.ext_enums = {e["path"]: e for e in d.get("ext_enums", [])}
         self.layouts = d["layouts"]
-        self.own = [b for b in self.bodies if not b.file.startswith("/")]
+        self.own = [b for b in self.bodies if not b.file.startswith("/") and not b.raw.get("spliced")]
 
     def body(self, path):
         bs = self.by_path.get(path)
